@@ -128,7 +128,7 @@ pub fn digest(sc: &Scenario) -> u64 {
 }
 
 fn viol(seed: u64, sc: &Scenario, class: String, detail: String) -> Violation {
-    let class = if sc.case.has_vardct && !class.starts_with("panic:") { format!("{class}+vardct") } else { class };
+    let class = sc.case.tag(class);
     Violation { property: "C13".into(), check: "c13".into(), class, detail, seed, scenario: serde_json::to_value(sc).unwrap() }
 }
 
@@ -247,6 +247,25 @@ fn run_pass(bytes: &[u8], ops: &[Op], limit: usize, fail_from: usize, stats: &mu
             }
             if outstanding > ledger {
                 return Err(("limit_exceeded".into(), format!("after op #{i} {op:?}: {outstanding} tracked bytes outstanding with a budget of {ledger}")));
+            }
+            // completeness: "group byte buffers carry their handle for their lifetime" — the
+            // compressed section data the image holds is part of the tracked total, whatever the
+            // chunking it arrived in (added after seeded mutation c13-m3)
+            if let State::Ready(img) = &state {
+                let mut held = 0usize;
+                for fi in 0..=img.num_loaded_frames() {
+                    if let Some(f) = img.frame(fi) {
+                        for g in f.toc().iter_bitstream_order() {
+                            held += f.data(g.kind).map(|d| d.len()).unwrap_or(0);
+                        }
+                    }
+                }
+                if held > outstanding {
+                    return Err(("untracked_memory:section_data".into(), format!("after op #{i} {op:?}: the image holds {held} bytes of section data but only {outstanding} bytes are tracked")));
+                }
+                if held > 0 {
+                    stats.probe("section_data_accounted");
+                }
             }
         }
         out.peak = tracker.verif_high_water();
